@@ -5,7 +5,7 @@
 # unchanged code, the pinned suite gives 106 passed (+ the always-failing test).  Writes meta.json ("confirmed", "kept").
 set -u
 src=$1; prop=$2; rn=$3
-name=${prop}_${rn}
+name=${4:-${prop}_${rn}}
 dst=/verif/refactors/$name
 mkdir -p "$dst"
 cp "$src/$rn/patch.diff" "$dst/patch.diff" || exit 1
